@@ -725,8 +725,8 @@ class ktensor:
         if idx is None:
             return self.copy()
 
-        if isinstance(idx, (int, tuple, list, np.ndarray)):
-            if isinstance(idx, int):
+        if isinstance(idx, (int, np.integer, tuple, list, np.ndarray)):
+            if isinstance(idx, (int, np.integer)):
                 components = np.array([idx])
             else:
                 components = np.asarray(idx)
@@ -1918,7 +1918,7 @@ class ktensor:
          [0.8137... 0.8...]]
         """
         if mode is not None:
-            if isinstance(mode, int) and mode in range(self.ndims):
+            if isinstance(mode, (int, np.integer)) and mode in range(self.ndims):
                 # Absorb the weights in a copy: the conversion must not change this ktensor
                 return self.copy().normalize(mode).factor_matrices
             assert False, "Input parameter'mode' must be in the range of self.ndims"
